@@ -38,7 +38,7 @@ def C(**kw):
 
 
 # design configurations: (name, constants, also check the repaired design?)
-F5 = dict(Fields=ALL_FIELDS, InFlight=True, AtRest=True, TrackWrote=True)
+F5 = dict(Fields=ALL_FIELDS | {"w"}, InFlight=True, AtRest=True, TrackWrote=True)     # "w": whole records exchanged at rest
 
 PROFILES = {
     "C16": {
@@ -122,6 +122,12 @@ SELFTESTS = [
         {"op": "rot", "n": 2, "i": 2, "f": "d", "m": "alt1"},
         {"op": "append", "n": 1, "first": 3, "term": 1, "kinds": ["cp"]}, {"op": "finish", "n": 1},
         {"op": "repl", "n": 2, "from": 1, "first": 3, "k": 1}, {"op": "finish", "n": 2}], "expect": ("report", 2, "storage")},
+    # at rest, two intact records of a verified range returned in each other's place: storage corruption
+    {"id": "st-swap", "steps": [
+        {"op": "append", "n": 1, "first": 1, "term": 1, "kinds": ["a", "a", "a"]}, {"op": "repl", "n": 2, "from": 1, "first": 1, "k": 3},
+        {"op": "rot", "n": 2, "i": 1, "f": "w", "m": "alt1"},
+        {"op": "append", "n": 1, "first": 4, "term": 1, "kinds": ["cp"]}, {"op": "finish", "n": 1},
+        {"op": "repl", "n": 2, "from": 1, "first": 4, "k": 1}, {"op": "finish", "n": 2}], "expect": ("report", 2, "storage")},
     # in-flight corruption: must be reported as in-flight corruption
     {"id": "st-inflight", "steps": [
         {"op": "append", "n": 1, "first": 1, "term": 1, "kinds": ["a", "a", "cp"]}, {"op": "finish", "n": 1},
